@@ -1,5 +1,6 @@
 """C08 - instantiation helpers pick type arguments within bounds and allowed variance."""
 import ast
+import re
 import itertools
 
 from ..repo import AnalysisError
@@ -353,7 +354,7 @@ def r5_r6_pools(repo):
     f = repo.fn(CTVA)
     lp, idx, tparam = _main_loop(f)
     g = cfg_of(f.node)
-    obs = []
+    obs = list(r5b_take_over(repo))
     ch = [c for c in calls_in(lp) if call_name(c) == "choice"]
     if len(ch) != 1 or not isinstance(ch[0].args[0], ast.Name):
         raise AnalysisError("expected one random.choice(<pool>) in the loop", rule="C08-R5", anchor=f.qualname)
@@ -657,6 +658,88 @@ def r10_variance(repo):
     return kernel.variance_table(repo, "C08-R10")
 
 
+def _filled_in_declaration_order(f, text):
+    """`D.values()` where D is created empty in this function and receives an entry for the loop variable of a loop over
+    a declaration's `type_parameters` in every iteration: insertion order is declaration order (an entry stored for the
+    *bound* of the loop variable re-assigns an earlier parameter's key or - the documented assumption - names an earlier
+    parameter)"""
+    m = re.match(r"^(\w+)\.values\(\)$", text)
+    if not m:
+        return False
+    d = m.group(1)
+    empty = [n for n in iter_own_nodes(f.node) if isinstance(n, ast.Assign) and src(n.targets[0]) == d and
+             (src(n.value) in ("{}", "dict()", "OrderedDict()"))]
+    others = [n for n in iter_own_nodes(f.node) if isinstance(n, ast.Assign) and src(n.targets[0]) == d and n not in empty]
+    if not empty or others or d in f.params:
+        return False
+    for lp in [n for n in iter_own_nodes(f.node) if isinstance(n, ast.For) and "type_parameters" in src(n.iter)]:
+        tv = [x.id for x in ast.walk(lp.target) if isinstance(x, ast.Name)]
+        stores = [n for n in iter_own_nodes(lp) if isinstance(n, ast.Assign) and isinstance(n.targets[0], ast.Subscript) and
+                  src(n.targets[0].value) == d]
+        keys = {src(n.targets[0].slice) for n in stores}
+        if stores and all(k in tv or any(k == v + ".bound" for v in tv) for k in keys) and any(k in tv for k in keys):
+            return True
+    return False
+
+
+def r11_declaration_order(repo):
+    """A type-argument list is positional: element i instantiates type parameter i of the declaration.  Every list handed
+    to `<type constructor>.new(..)` / `ParameterizedType(.., <list>)` is therefore built in declaration order - never taken
+    from the values / keys / items of a map (insertion order: the order in which assignments happened to be made) or from a
+    set."""
+    obs = []
+    for qual, f in sorted(repo.functions.items()):
+        if not (f.module.name.startswith("src.") or f.module.name == "hephaestus"):
+            continue
+        prov = None
+        for c in calls_in(f.node):
+            if not (call_name(c) == "new" and isinstance(c.func, ast.Attribute) and len(c.args) == 1 and not c.keywords):
+                continue
+            arg = c.args[0]
+            prov = prov or Prov(f.node, passthrough={"list", "tuple", "sorted", "reversed"})
+            leaves = [arg] + [s_ for s_ in prov.sources(arg, at=c) if isinstance(s_, ast.AST)]
+            bad = []
+            for lf in leaves:
+                for n in ast.walk(lf):
+                    if isinstance(n, ast.Call) and isinstance(n.func, ast.Attribute) and n.func.attr in ("values", "keys", "items") \
+                            and not n.args:
+                        bad.append(src(n))
+                    if isinstance(n, ast.Call) and isinstance(n.func, ast.Name) and n.func.id in ("set", "frozenset"):
+                        bad.append(src(n))
+                    if isinstance(n, (ast.Set, ast.SetComp)):
+                        bad.append(src(n)[:40])
+            # a comprehension / loop over the declaration's parameters that *looks up* a map is fine: `m[t_param] for t_param in ..`
+            bad = [b for b in bad if not any(isinstance(lf, (ast.ListComp,)) and b in src(lf.generators[0].iter) and
+                                             "type_parameters" in src(lf.generators[0].iter) for lf in leaves)]
+            bad = [b for b in bad if not _filled_in_declaration_order(f, b)]
+            obs.append(Ob("C08-R11", "%s:new(%s):arguments-in-declaration-order" % (f.qualname.split(".", 2)[-1], src(arg)[:30]),
+                          _w(f, c), not bad,
+                          "`%s`: the type-argument list derives from %s - a map's iteration order is the order of insertion, "
+                          "not the order of the declaration's type parameters" % (src(c)[:80], sorted(set(bad)))))
+    return obs
+
+
+def r5b_take_over(repo):
+    """a parameter that is the bound of an already assigned parameter takes over that assignment whenever it has no
+    assignment of its own - whatever bound it has itself (otherwise the later parameter's argument is not below it)"""
+    f = repo.fn(CTVA)
+    lp, idx, tparam = _main_loop(f)
+    loops = [n for n in iter_own_nodes(lp) if isinstance(n, ast.For) and n is not lp and
+             isinstance(n.iter, ast.Call) and call_name(n.iter) == "items" and
+             any(isinstance(x, ast.Compare) and len(x.ops) == 1 and isinstance(x.ops[0], ast.Eq) and
+                 {src(x.left).rsplit(".", 1)[-1], src(x.comparators[0])} == {"bound", tparam} and
+                 src(x.left).endswith(".bound") for x in ast.walk(n))]
+    if len(loops) != 1:
+        raise AnalysisError("expected one take-over loop `for k, v in type_var_map.items(): if k.bound == %s`" % tparam,
+                            rule="C08-R5", anchor=f.qualname)
+    gs = [(src(t), p) for t, p in flat_guards(loops[0], stop=lp)]
+    extra = [("" if p else "not ") + t for t, p in gs if p or not re.match(r"^\w+$", t)]
+    return [Ob("C08-R5", "take-over-of-a-bounded-parameter's-assignment:whenever-not-pre-assigned", _w(f, loops[0]),
+               not extra and len(gs) <= 1,
+               "the take-over loop runs under %s; expected only `not <own pre-assignment>`"
+               % [("" if p else "not ") + t for t, p in gs])]
+
+
 def rules():
     return [
         RuleSpec("C08-R1", "exactly one argument and one map entry per type parameter", 5, r1_exactly_one),
@@ -673,6 +756,7 @@ def rules():
         RuleSpec("C08-R8", "equality of types is structural (assignments are keyed by type parameters)", 6, r8_equality),
         RuleSpec("C08-R9", "has_type_variables is the structural fold (bounds are substituted only where it answers True)", 7, r9_fold),
         RuleSpec("C08-R10", "the three variance objects answer their own predicates", 4, r10_variance),
+        RuleSpec("C08-R11", "type-argument lists are built in declaration order, never from a map's values", 10, r11_declaration_order),
     ]
 
 
